@@ -7,13 +7,15 @@
        word is truncated to 16 bits on every store, bits/padding wrap at 256;
      - decode_single writes nothing on error, decode_update stops at the first error but the
        bytes stored before it stay written;
-     - TABLE_END ('=') is refused only when padding > 2 *before* the increment, so a third '='
-       is accepted when a single 6-bit symbol of value 0 is buffered ("A===");
+     - two decoders are modelled, selected by the flag [nettle]: the bundled copy of /repo HEAD
+       (after bb5de60: '=' refused when padding >= 2) and the libnettle 3.8 decoder this build
+       links (the same code with the older test padding > 2 made *before* the increment, so a
+       third '=' is accepted when a single 6-bit symbol of value 0 is buffered: "A===");
      - encode_raw fills its output backwards from the end;
      - encode_update runs single-byte steps while bits are buffered, then a bulk encode_raw
        over a multiple of three bytes (which does not touch ctx->word), then single-byte steps;
-     - decodeCleartext works on C strings: everything after a decoded NUL is invisible to the
-       CR/LF test and to the user/password split. *)
+     - decodeCleartext (after 06c1c79) refuses decoded credentials containing a NUL, then works
+       on C strings; it calls whatever base64_decode_* the build links (libnettle here). *)
 Require Import SquidV.Bytes.
 Require Import SquidV.gen.Base64_gen.
 Local Open Scope N_scope.
@@ -47,14 +49,18 @@ Definition dctx_init : dctx := mkD 0 0 0.
 
 Inductive sres := SErr | SNone | SByte (b : N) | SAbort.
 
+(* '=' seen with [pad] padding characters counted so far: refused?
+   bundled (lib/base64.cc HEAD): ctx->padding >= 2      libnettle 3.8: ctx->padding > 2 *)
+Definition pad_full (nettle : bool) (pad : N) : bool := if nettle then 2 <? pad else 2 <=? pad.
+
 (* base64_decode_single *)
-Definition decode_single (ctx : dctx) (src : N) : dctx * sres :=
+Definition decode_single (nettle : bool) (ctx : dctx) (src : N) : dctx * sres :=
   let data := dec_lookup src in
   if (data =? TABLE_INVALID)%Z then (ctx, SErr)
   else if (data =? TABLE_SPACE)%Z then (ctx, SNone)
   else if (data =? TABLE_END)%Z then
     (* There can be at most two padding characters. *)
-    if (d_bits ctx =? 0) || (2 <? d_pad ctx) then (ctx, SErr)
+    if (d_bits ctx =? 0) || pad_full nettle (d_pad ctx) then (ctx, SErr)
     else if negb (N.land (d_word ctx) (N.shiftl 1 (d_bits ctx) - 1) =? 0) then (ctx, SErr)
     else (mkD (d_word ctx) ((d_bits ctx + 254) mod 256) ((d_pad ctx + 1) mod 256), SNone)
   else if ((0 <=? data) && (data <? 64))%Z then   (* default: assert(data >= 0 && data < 0x40) *)
@@ -79,15 +85,15 @@ Definition uwritten (u : ures) : bytes :=
   match u with UOk o => o | UFail w => w | UAbort w => w end.
 
 (* base64_decode_update *)
-Fixpoint decode_update (ctx : dctx) (src : bytes) : dctx * ures :=
+Fixpoint decode_update (nettle : bool) (ctx : dctx) (src : bytes) : dctx * ures :=
   match src with
   | [] => (ctx, UOk [])
   | c :: r =>
-    match decode_single ctx c with
+    match decode_single nettle ctx c with
     | (ctx', SErr) => (ctx', UFail [])
     | (ctx', SAbort) => (ctx', UAbort [])
-    | (ctx', SNone) => decode_update ctx' r
-    | (ctx', SByte b) => let '(c2, u) := decode_update ctx' r in (c2, ucons b u)
+    | (ctx', SNone) => decode_update nettle ctx' r
+    | (ctx', SByte b) => let '(c2, u) := decode_update nettle ctx' r in (c2, ucons b u)
     end
   end.
 
@@ -95,20 +101,20 @@ Fixpoint decode_update (ctx : dctx) (src : bytes) : dctx * ures :=
 Definition decode_final (ctx : dctx) : bool := d_bits ctx =? 0.
 
 (* init; one update; final  (what every caller in squid does) *)
-Definition b64_decode (src : bytes) : option bytes :=
-  match decode_update dctx_init src with
+Definition b64_decode (nettle : bool) (src : bytes) : option bytes :=
+  match decode_update nettle dctx_init src with
   | (c, UOk o) => if decode_final c then Some o else None
   | _ => None
   end.
 
 (* init; one update per chunk (stopping at the first failing one); final *)
 Inductive dres := DOk (out : bytes) | DTrunc (out : bytes) | DRej (written : bytes) | DAbort.
-Fixpoint decode_chunks (ctx : dctx) (chunks : list bytes) (acc : bytes) : dres :=
+Fixpoint decode_chunks (nettle : bool) (ctx : dctx) (chunks : list bytes) (acc : bytes) : dres :=
   match chunks with
   | [] => if decode_final ctx then DOk acc else DTrunc acc
   | s :: r =>
-    match decode_update ctx s with
-    | (c, UOk o) => decode_chunks c r (acc ++ o)
+    match decode_update nettle ctx s with
+    | (c, UOk o) => decode_chunks nettle c r (acc ++ o)
     | (_, UFail w) => DRej (acc ++ w)
     | (_, UAbort _) => DAbort
     end
@@ -230,14 +236,16 @@ Definition strtok_nl_strlen (eek : bytes) : bytes :=
   let '(lead, rest) := span (fun c => c =? 10) eek in
   lead ++ fst (span (fun c => negb (c =? 10)) rest).
 
-(* decodeCleartext with utf8 == false; None = nullptr *)
-Definition decodeCleartext (httpAuthHeader : bytes) : option bytes :=
+(* decodeCleartext with utf8 == false; None = nullptr.  [nettle] = which base64_decode_* is linked *)
+Definition decodeCleartext (nettle : bool) (httpAuthHeader : bytes) : option bytes :=
   let h := cstr httpAuthHeader in
   let p1 := snd (span xisgraph h) in          (* trim BASIC from string *)
   let p2 := snd (span xisspace p1) in         (* trim leading whitespace *)
   let eek := strtok_nl_strlen p2 in
-  match b64_decode eek with
+  match b64_decode nettle eek with
   | Some cleartext =>
+      (* if (memchr(cleartext, '\0', dstLen)) return nullptr; *)
+      if existsb (fun c => c =? 0) cleartext then None else
       let ct := cstr cleartext in              (* cleartext[dstLen] = '\0'; C string from here on *)
       (* strcspn(cleartext, "\r\n") != strlen(cleartext) *)
       if existsb (fun c => (c =? 13) || (c =? 10)) ct then None else Some ct
@@ -255,8 +263,8 @@ Definition basic_split (casesensitive : bool) (ct : bytes) : bytes * option byte
   | _ :: pw => (user, match pw with [] => None | _ => Some pw end)  (* empty password disallowed *)
   end.
 
-Definition basic_decode (casesensitive : bool) (hdr : bytes) : option (bytes * option bytes) :=
-  match decodeCleartext hdr with
+Definition basic_decode (nettle casesensitive : bool) (hdr : bytes) : option (bytes * option bytes) :=
+  match decodeCleartext nettle hdr with
   | None => None
   | Some ct => Some (basic_split casesensitive ct)
   end.
